@@ -41,6 +41,8 @@ class World:
         self.apis = Counter()       # API coverage
         self.step = 0
         self.states = {}        # saved numpy global states (np.perturb getstate/setstate)
+        self.caller_err = None  # the simulated caller's numpy floating-point error state (None: numpy's default)
+        self.err_changed = []   # library calls that left that process-global state changed
         # process-global state of the system under test, seeded from the run seed
         ent = self.streams["entropy"]
         boot.set_entropy(lambda: ent.getrandbits(64))
@@ -58,6 +60,7 @@ class World:
             armt = (arm[0], int(arm[1]), boot.make_exc(arm[2]))
         buf = io.StringIO()
         boot.seams_begin(armt)
+        harness_err = np.seterr(**self.caller_err) if self.caller_err else None
         try:
             with contextlib.redirect_stdout(buf):
                 v = fn(*args, **kwargs)
@@ -69,6 +72,11 @@ class World:
         except Exception as e:
             out = ("exc", e)
         finally:
+            if harness_err is not None:
+                now = np.geterr()
+                if any(now[k] != v for k, v in self.caller_err.items()):
+                    self.err_changed.append({k: [self.caller_err[k], now[k]] for k in self.caller_err if now[k] != self.caller_err[k]})
+                np.seterr(**harness_err)      # the harness itself computes under its own (default) settings
             calls, pending = boot.seams_end()
         self.last_seam_calls = calls
         self.last_stdout = buf.getvalue()
